@@ -109,7 +109,11 @@ def gen_c09_spec(rng: random.Random) -> Dict[str, Any]:
         _clean(declared)
         for op_ in ops:
             _clean(op_.get("labels", {}))
+    drop = None
+    if declared and rng.random() < 0.15:
+        drop = next(iter(declared))  # the first declared label (first in the type table as well)
     spec: Dict[str, Any] = {
+        "drop": drop,
         "declared": declared, "ops": ops, "fmt": fmt, "fmt2": fmt2, "use_retry": use_retry, "shared": shared, "validate": rng.random() < 0.75, "stamp": rng.random() < 0.2,
         "retry_labels": rng.choice(["declared", "op"]),
         "no_result_on_retry": rng.random() < 0.5,
@@ -188,7 +192,15 @@ def run_c09(spec: Dict[str, Any]) -> "tuple[List[Violation], Dict[str, Any]]":
                 message.labels["trace_id"] = "abc123"
                 return message
 
-        mws: List[Any] = [RecMw()] + ([StampMw()] if spec.get("stamp") else [])
+        class DropMw(TaskiqMiddleware):
+            """A client-side middleware that removes a (declared) label from the outgoing message: its entry in the
+            type table stays behind."""
+
+            def pre_send(self, message: Any) -> Any:
+                message.labels.pop(spec["drop"], None)
+                return message
+
+        mws: List[Any] = [RecMw()] + ([StampMw()] if spec.get("stamp") else []) + ([DropMw()] if spec.get("drop") else [])
         if spec["use_retry"]:
             mws.append(SimpleRetryMiddleware(default_retry_count=3, default_retry_label=False,
                                              no_result_on_retry=spec["no_result_on_retry"]))
@@ -262,6 +274,8 @@ def run_c09(spec: Dict[str, Any]) -> "tuple[List[Violation], Dict[str, Any]]":
             expect.update(over)
             if spec.get("stamp") and op["kind"] != "broker":
                 expect["trace_id"] = "abc123"  # (a send to another broker goes through that broker's middlewares: none)
+            if spec.get("drop") and op["kind"] != "broker":
+                expect.pop(spec["drop"], None)
             new1, new2 = sc.kicked[n1:], broker2.sent[n2:]
             if op["kind"] == "broker":
                 if len(new2) != 1 or new1:
